@@ -103,7 +103,7 @@ Proof. intros H. rewrite <- (app_nil_r (enc_varint v)). now apply varint_roundtr
 Lemma unmarshal_from_frame terr o max body rest :
   N.of_nat (length body) < 2^64 ->
   N.of_nat (length body) <= effective_max max ->
-  N.of_nat (length body) <= max_alloc ->
+  N.of_nat (length body) <= max_int ->
   unmarshal_from body_ok terr o max (marshal_to body ++ rest) = (unmarshal body_ok body, rest).
 Proof.
   intros H64 Hmax Halloc. unfold unmarshal_from, marshal_to.
@@ -117,7 +117,7 @@ Proof.
   { unfold size. rewrite Nat2N.id, skipn_app, Nat.sub_diag, skipn_all. reflexivity. }
   destruct (is_bufio o && peek_ok o size && (size <=? max_int) && (size <=? N.of_nat (length (body ++ rest)))).
   - rewrite take_upto_spec, Hf, Hs. reflexivity.
-  - replace (max_alloc <? size) with false by lia.
+  - replace (size <=? max_int) with true by lia. rewrite orb_true_r.
     rewrite read_full_spec by lia.
     rewrite app_length. replace (size <=? N.of_nat (length body + length rest)) with true by lia.
     rewrite Hf, Hs. reflexivity.
@@ -143,23 +143,24 @@ Qed.
 
 (* ---------- oracle independence ---------- *)
 Theorem unmarshal_from_ref_eq terr o max s :
-  N.of_nat (length s) <= max_alloc ->
   unmarshal_from body_ok terr o max s = unmarshal_from_ref body_ok terr max s.
 Proof.
-  intros Hlen. unfold unmarshal_from, unmarshal_from_ref.
-  pose proof (read_size_inv size_arr_len terr true [] s) as Hr.
+  unfold unmarshal_from, unmarshal_from_ref.
   destruct (read_size terr size_arr_len true [] s) as [buf r|e r]; [|reflexivity].
   destruct (dec_varint buf) as [[size rest]|e]; [|reflexivity].
   destruct (effective_max max <? size); [reflexivity|].
-  destruct (size <=? N.of_nat (length r)) eqn:Es.
-  - rewrite andb_true_r.
-    destruct (is_bufio o && peek_ok o size && (size <=? max_int)).
-    + now rewrite take_upto_spec.
-    + replace (max_alloc <? size) with false by lia.
-      rewrite read_full_spec by lia. rewrite Es. reflexivity.
-  - rewrite andb_false_r.
-    destruct (max_alloc <? size); [reflexivity|].
-    rewrite read_full_spec by lia. rewrite Es. reflexivity.
+  destruct (max_int <? size) eqn:Ei.
+  - (* int(size) / int64(size) is negative: no Peek, nothing read *)
+    replace (size <=? max_int) with false by lia. rewrite andb_false_r, andb_false_l, orb_false_r.
+    replace (size <=? max_prealloc_size) with false by (unfold max_prealloc_size, max_int in *; lia).
+    reflexivity.
+  - replace (size <=? max_int) with true by lia. rewrite andb_true_r, orb_true_r.
+    destruct (size <=? N.of_nat (length r)) eqn:Es.
+    + rewrite andb_true_r.
+      destruct (is_bufio o && peek_ok o size).
+      * now rewrite take_upto_spec.
+      * rewrite read_full_spec by lia. rewrite Es. reflexivity.
+    + rewrite andb_false_r. rewrite read_full_spec by lia. rewrite Es. reflexivity.
 Qed.
 
 (* ---------- io.EOF exactly on the empty stream ---------- *)
@@ -177,7 +178,8 @@ Proof.
       destruct (effective_max max <? size); [discriminate|].
       destruct (is_bufio o && peek_ok o size && (size <=? max_int) && (size <=? N.of_nat (length r))).
       * destruct (take_upto r size). cbn [fst]. intros H. now apply unmarshal_not_eof in H.
-      * destruct (max_alloc <? size); [discriminate|].
+      * destruct ((size <=? max_prealloc_size) || (size <=? max_int));
+          [|cbn [fst]; intros H; now apply unmarshal_not_eof in H].
         destruct (read_full (S (length r)) o 0 size [] r); cbn [fst].
         -- intros H. now apply unmarshal_not_eof in H.
         -- destruct terr; discriminate.
@@ -203,7 +205,8 @@ Proof.
       * cbn [fst]. intros H; inversion H; subst. exists buf, r, rest. repeat split; auto; lia.
       * destruct (is_bufio o && peek_ok o size && (size <=? max_int) && (size <=? N.of_nat (length r))).
         -- destruct (take_upto r size). cbn [fst]. intros H. now apply unmarshal_not_big in H.
-        -- destruct (max_alloc <? size); [discriminate|].
+        -- destruct ((size <=? max_prealloc_size) || (size <=? max_int));
+             [|cbn [fst]; intros H; now apply unmarshal_not_big in H].
            destruct (read_full (S (length r)) o 0 size [] r); cbn [fst].
            ++ intros H. now apply unmarshal_not_big in H.
            ++ destruct terr; discriminate.
@@ -284,7 +287,7 @@ Qed.
 Lemma unmarshal_from_cut_body o max body j :
   N.of_nat (length body) < 2^64 ->
   N.of_nat (length body) <= effective_max max ->
-  N.of_nat (length body) <= max_alloc ->
+  N.of_nat (length body) <= max_int ->
   (j < length body)%nat ->
   unmarshal_from body_ok false o max (enc_varint (N.of_nat (length body)) ++ firstn j body) = (DUnexpectedEOF, []).
 Proof.
@@ -295,7 +298,7 @@ Proof.
   assert (Hlen : length (firstn j body) = j) by (apply firstn_length_le; lia).
   rewrite Hlen.
   replace (size <=? N.of_nat j) with false by lia. rewrite andb_false_r.
-  replace (max_alloc <? size) with false by lia.
+  replace (size <=? max_int) with true by lia. rewrite orb_true_r.
   rewrite read_full_spec by lia. rewrite Hlen.
   replace (size <=? N.of_nat j) with false by lia. reflexivity.
 Qed.
@@ -308,7 +311,7 @@ Proof. unfold enc_varint. cbn [enc_varint_fuel]. destruct (v <? 128); cbn; lia. 
 
 Definition frame_ok (max : Z) (body : list byte) : Prop :=
   N.of_nat (length body) < 2^64 /\ N.of_nat (length body) <= effective_max max /\
-  N.of_nat (length body) <= max_alloc /\ body_ok body = true.
+  N.of_nat (length body) <= max_int /\ body_ok body = true.
 
 Lemma unmarshal_from_cut o max body j :
   frame_ok max body -> (0 < j < length (marshal_to body))%nat ->
@@ -419,7 +422,8 @@ Proof.
     destruct (is_bufio o && peek_ok o size && (size <=? max_int) && (size <=? N.of_nat (length r))).
     + rewrite take_upto_spec. cbn [fst snd]. split; [apply unmarshal_not_fuel|].
       intros _ _. rewrite skipn_length. lia.
-    + destruct (max_alloc <? size); [split; [discriminate | intros; discriminate]|].
+    + destruct ((size <=? max_prealloc_size) || (size <=? max_int));
+        [|cbn [fst snd]; split; [apply unmarshal_not_fuel | intros; lia]].
       rewrite read_full_spec by lia.
       destruct (size <=? N.of_nat (length r)); cbn [fst snd].
       * split; [apply unmarshal_not_fuel|]. intros _ _. rewrite skipn_length. lia.
@@ -451,12 +455,13 @@ Lemma delim_consts_ok :
   N.of_nat size_arr_len = DelimConsts.sizeArrLen /\
   max_int = DelimConsts.unlimitedBound /\
   effective_max DelimConsts.unlimitedMaxSize = DelimConsts.unlimitedBound /\
-  effective_max 0 = DelimConsts.defaultMaxSize.
+  effective_max 0 = DelimConsts.defaultMaxSize /\
+  max_prealloc_size = DelimConsts.maxPreallocSize.
 Proof. repeat split; reflexivity. Qed.
 
-(* ---------- F15: with MaxSize = -1 a size above the allocator's limit panics ---------- *)
+(* ---------- regression for F15 (repaired): MaxSize = -1 and a size the stream cannot back ---------- *)
 Definition f15_stream : list byte := [xff; xff; xff; xff; xff; xff; xff; xff; x7f].
 Definition plain_oracle : oracle := {| is_bufio := false; peek_ok := fun _ => false; chunk := fun _ => 1 |}.
-Lemma f15_panics :
-  unmarshal_from (fun _ => true) false plain_oracle (-1) f15_stream = (DAllocPanic, []).
+Lemma f15_unexpected_eof :
+  unmarshal_from (fun _ => true) false plain_oracle (-1) f15_stream = (DUnexpectedEOF, []).
 Proof. vm_compute. reflexivity. Qed.
